@@ -24,7 +24,11 @@
                                                       obligation_is_needed
    * "for every trainable component"               -> frames_closed, every_class_retrains_fresh
    * "Training a pipeline trains each trainable component exactly once on the given data"
-                                                   -> pipeline_trains_each_once
+                                                   -> pipeline_trains_each_once,
+                                                      pipeline_trains_every_node_whatever_the_wiring (pipeline SHAPES:
+                                                      edges, default node, aliases; count per node = 1 also for a
+                                                      trainable component that feeds no declared output),
+                                                      walking_from_the_outputs_is_not_enough
    * "passing a distinct seed derived from the supplied one to each"
                                                    -> seeds_distinct (hypothesis: SeedSequence.spawn gives
                                                       different children different seeds)
@@ -35,7 +39,7 @@
 From Coq Require Import ZArith List Bool Lia.
 From Coq Require String.
 Import String.StringSyntax.
-From LK Require Import Model.C18_retrain Gen.C18_frames Proofs.C18_proofs Proofs.C18_main Proofs.C18_frames_ok Proofs.C18_pipeline.
+From LK Require Import Model.C18_retrain Gen.C18_frames Proofs.C18_proofs Proofs.C18_main Proofs.C18_frames_ok Proofs.C18_pipeline Proofs.C18_shapes.
 Import ListNotations.
 Local Open Scope string_scope.
 
@@ -105,6 +109,29 @@ Theorem pipeline_trains_each_once : forall k retrain sb ns,
   (NoDup (map pn_name ns) -> NoDup (map pc_name calls)).
 Proof. exact pipeline_trains_each_once_l. Qed.
 Print Assumptions pipeline_trains_each_once.
+
+(* the same for every pipeline SHAPE: a pipeline is its nodes plus edges (consumer, source), a default node and
+   aliases; `pt_iterates_all_nodes` is regenerated from the source.  Every node is counted: a trainable component is
+   trained exactly once and anything else never -- in particular a trainable component on a side branch, from which
+   no declared output is computed (it is only ever run by name); and the calls do not depend on the wiring at all. *)
+Theorem pipeline_trains_every_node_whatever_the_wiring : forall k retrain sb sh,
+  NoDup (map pn_name (sh_nodes sh)) ->
+  let calls := shape_calls pt_iterates_all_nodes (pt_seed_plan k) pt_spawn_width retrain (start_index (pt_seed_plan k) sb) sh in
+  (forall n, In n (sh_nodes sh) -> count_name (pn_name n) (map pc_name calls) = expected_count n) /\
+  (forall n, In n (sh_nodes sh) -> pn_trainable n = true -> on_output_path sh (pn_name n) = false ->
+     count_name (pn_name n) (map pc_name calls) = 1) /\
+  (forall sh', sh_nodes sh' = sh_nodes sh ->
+     shape_calls pt_iterates_all_nodes (pt_seed_plan k) pt_spawn_width retrain (start_index (pt_seed_plan k) sb) sh' = calls).
+Proof. exact every_node_whatever_the_wiring_l. Qed.
+Print Assumptions pipeline_trains_every_node_whatever_the_wiring.
+
+(* why the loop must be over all nodes: walking back from the declared outputs leaves a side branch untrained *)
+Theorem walking_from_the_outputs_is_not_enough :
+  on_output_path side_shape "scorer" = true /\ on_output_path side_shape "fallback" = false /\
+  count_name "fallback" (map pc_name (shape_calls false PlanWrap 1 true 0 side_shape)) = 0 /\
+  count_name "fallback" (map pc_name (shape_calls pt_iterates_all_nodes PlanWrap 1 true 0 side_shape)) = 1.
+Proof. exact outputs_walk_misses_side_branch_l. Qed.
+Print Assumptions walking_from_the_outputs_is_not_enough.
 
 Theorem seeds_distinct : forall (Seed : Type) (spawn : nat -> Seed),
   (forall i j, spawn i = spawn j -> i = j) ->                     (* numpy SeedSequence.spawn: library contract *)
